@@ -27,7 +27,7 @@ suite_out=$(run go test -vet=off -count=1 ./... 2>&1); suite_rc=$?
 echo "$name: demo-on-clean rc=$clean_rc, demo-on-mutant rc=$mut_rc, suite-on-mutant rc=$suite_rc"
 if [ $clean_rc -eq 0 ] && [ $mut_rc -ne 0 ] && [ $suite_rc -eq 0 ]; then
   d=/verif/seeded/$name; mkdir -p "$d"
-  (cd "$wt" && git diff) > "$d/patch.diff"
+  (cd "$wt" && git diff HEAD) > "$d/patch.diff"
   cp "$demo" "$d/demo_test.go"; [ -f "$src/notes.md" ] && cp "$src/notes.md" "$d/notes.md"
   prop=$(echo "$name" | cut -d- -f1)
   python3 - "$d" "$prop" "$place" <<'PY'
